@@ -7,12 +7,14 @@ Totality ("returns a value or raises") holds by construction: every model parser
 documented error of the regex parsers; `.syntax` = lark `UnexpectedInput`, the documented error of the marker
 grammar) and that parser-produced values print.  Part I: versions, string constraints, markers.  Part II:
 version constraints (`parse_constraint`, `parse_marker_version_constraint`).
-Requirements / dependencies (Model/Requirement.lean, Model/Dep.lean) and `Factory.validate` are covered by the
-real-code oracle of vp/c19.py only.
+Part IV: the algebra hypothesis of Part II discharged outside the local-label case.  Part V: PEP 508 requirements
+and dependencies (decompositions; classification relative to Parts II/IV and the marker simplifier).
+`Factory.validate` is covered by the real-code oracle of vp/c19.py only.
 -/
 import PoetryVerif.Proofs.ParserTotalGM
 import PoetryVerif.Proofs.ParserTotalVC
 import PoetryVerif.Proofs.ParserTotalVC2
+import PoetryVerif.Proofs.ParserTotalReq
 
 /-! # Part I — versions, string constraints, markers -/
 /-!
@@ -584,5 +586,244 @@ example : (parseConstraint ">=1.2,<2.0,!=1.5 || ==3.* || <0.5" >>= VC.toStr) =
 
 /-- not covered: two bounds of the same release (`1.0`, `1.0.post1`) -/
 example : regularBoundsB ">1.0 || <1.0.post1" false = false := by decide
+
+end Poetry.C19
+
+/-! # Part V — PEP 508 requirements and dependencies -/
+/-!
+C19, Part V — requirement strings (`Requirement.__init__`) and `Dependency.create_from_pep_508`.
+Property theorems only (helper lemmas: Proofs/ParserTotalReq.lean).  Fragment to be appended to Props/C19.lean
+(the `import` of Props/C19 below only serves the stand-alone build: it provides
+`vc_parse_err_documented_full_statement` and `vc_parsed_printable_full_statement`).
+
+The documented error is `InvalidRequirementError` / `ValueError` (`.value`): `Requirement.__init__` wraps lark's
+errors, `RecursionError` (repo 9ad3a46) and `ParseConstraintError`.  `.unmodelled` = the text leaves the model
+(URL outside printable ASCII without brackets; `file:` / local-path / `%`-quoted URLs and git URLs outside the
+restricted grammar in `create_from_pep_508`; `platform_release` marker values) — never a claim about the code.
+What the two entry points add to the parsers analysed in Parts I–IV is classified here completely; what they
+delegate stays visible as named disjuncts: the version-constraint parser (Part II/IV), `str()` of the parsed
+constraint (Part II.B), the marker simplifier `union(*sub_markers)` and `convert_markers` (not analysed).
+-/
+set_option linter.unusedSimpArgs false
+set_option linter.unusedVariables false
+
+namespace Poetry.C19
+open Poetry Marker Req Dep ParserTotal
+
+/-! # Part V — requirements and dependencies -/
+
+/-! ## R1 — `Requirement(text)` -/
+
+/-- the full statement.  NOT proved in full; see `req_parse_err_decomposed` for exactly what is missing. -/
+def req_parse_err_documented_full_statement : Prop :=
+  ∀ s e, Req.parse s = .error e → e = .value
+
+/-- the statement up to model coverage -/
+def req_parse_err_classified_full_statement : Prop :=
+  ∀ s e, Req.parse s = .error e → e = .value ∨ e = .unmodelled
+
+/-- **R1 (grammar).** A text the PEP 508 grammar rejects is rejected with `ValueError`. -/
+theorem req_grammar_err_documented (s : String) (h : parseRaw s.toList = none) :
+    Req.parse s = .error .value := by
+  unfold Req.parse parseL
+  rw [h]
+
+example : parseRaw "foo @".toList = none ∧ Req.parse "foo @" = .error .value := ⟨rfl, rfl⟩
+example : Req.parse "foo >=1.0 ; os_name ==" = .error .value :=
+  eq_error_of_isErrB _ _ (by decide +kernel)
+
+/-- **R1 (decomposition, no hypothesis).** An error of `Requirement(text)` is: the grammar's (`ValueError`);
+the URL check's (`ValueError`, or the URL leaves the model); the version-constraint parser's, on the
+comma-join of the specifier tokens (`*` when there are none); or raised while compacting the marker
+(`_compact_markers` + `union`). -/
+theorem req_parse_err_decomposed (s : String) (e : PyErr) (h : Req.parse s = .error e) :
+    e = .value ∨ e = .unmodelled ∨
+    (∃ raw, parseRaw s.toList = some raw ∧
+      VParser.parseConstraint (constraintTextOf raw.specs) = .error e) ∨
+    (∃ raw syn, parseRaw s.toList = some raw ∧ raw.marker = some syn ∧ compactTop syn = .error e) := by
+  rcases parseL_err s.toList e h with h | ⟨raw, hr, h⟩
+  · exact .inl h
+  · rcases ofRaw_err' raw e h with ⟨_, h | h⟩ | h | ⟨syn, hs, h⟩
+    · exact .inl h
+    · exact .inr (.inl h)
+    · exact .inr (.inr (.inl ⟨raw, hr, h⟩))
+    · exact .inr (.inr (.inr ⟨raw, syn, hr, hs, h⟩))
+
+/-- … with the marker part split (under `VCErrDocumented`, Part III): marker leaves fail with `ValueError`
+or leave the model (`platform_release`); what remains is the simplifier on raw sub-markers. -/
+theorem req_parse_err_decomposed_marker (hvc : VCErrDocumented) (s : String) (e : PyErr)
+    (h : Req.parse s = .error e) :
+    e = .value ∨ e = .unmodelled ∨
+    (∃ raw, parseRaw s.toList = some raw ∧
+      VParser.parseConstraint (constraintTextOf raw.specs) = .error e) ∨
+    (∃ subs, (∀ m ∈ subs, RawM m = true) ∧ unionF defaultFuel [] subs = .error e) := by
+  rcases req_parse_err_decomposed s e h with h | h | h | ⟨raw, syn, _, _, h⟩
+  · exact .inl h
+  · exact .inr (.inl h)
+  · exact .inr (.inr (.inl h))
+  · rcases compactTop_err hvc syn e h with (h | h) | h
+    · exact .inl h
+    · exact .inr (.inl h)
+    · exact .inr (.inr (.inr h))
+
+/-- **R1 (partial).** Named hypotheses: `hV` — the version-constraint parser raises `ValueError` only, for
+every string in both modes (Part II `vc_parse_err_documented_full_statement`; proved outside the local-label
+case in Part IV); `hsimp` — every error of the simplifier on raw sub-markers lies in `E` (as in
+`parse_marker_err_documented_partial`). -/
+theorem req_parse_err_documented_partial (hV : vc_parse_err_documented_full_statement) (E : PyErr → Prop)
+    (hsimp : ∀ subs e, (∀ m ∈ subs, RawM m = true) → unionF defaultFuel [] subs = .error e → E e)
+    (s : String) (e : PyErr) (h : Req.parse s = .error e) :
+    e = .value ∨ e = .unmodelled ∨ E e := by
+  have hvc : VCErrDocumented := fun t e' ht => hV t true e' ht
+  rcases req_parse_err_decomposed_marker hvc s e h with h | h | ⟨raw, _, h⟩ | ⟨subs, hr, h⟩
+  · exact .inl h
+  · exact .inr (.inl h)
+  · exact .inl (hV _ false e h)
+  · exact .inr (.inr (hsimp subs e hr h))
+
+/-- **R1 (unconditional fragment: no marker).** Without a marker, the only undischarged source is the
+version-constraint parser on the specifier text. -/
+theorem req_no_marker_err (s : String) (raw : Raw) (e : PyErr) (hr : parseRaw s.toList = some raw)
+    (hm : raw.marker = none) (h : Req.parse s = .error e) :
+    e = .value ∨ e = .unmodelled ∨ VParser.parseConstraint (constraintTextOf raw.specs) = .error e := by
+  rcases req_parse_err_decomposed s e h with h | h | ⟨raw', hr', h⟩ | ⟨raw', syn, hr', hs, _⟩
+  · exact .inl h
+  · exact .inr (.inl h)
+  · rw [hr] at hr'; cases hr'; exact .inr (.inr h)
+  · rw [hr] at hr'; cases hr'; rw [hm] at hs; cases hs
+
+/-- **R1 (unconditional fragment: name, extras, URL only).** A requirement without version specifier and
+without marker fails with `ValueError`, or its URL leaves the model — no hypothesis. -/
+theorem req_no_marker_no_spec_err_documented (s : String) (raw : Raw) (e : PyErr)
+    (hr : parseRaw s.toList = some raw) (hs : raw.specs = none) (hm : raw.marker = none)
+    (h : Req.parse s = .error e) : e = .value ∨ e = .unmodelled := by
+  rcases req_no_marker_err s raw e hr hm h with h | h | h
+  · exact .inl h
+  · exact .inr h
+  · rw [hs] at h
+    simp only [constraintTextOf] at h
+    rw [vc_star] at h; cases h
+
+/-- such requirements: accepted; rejected by the URL check (`urlparse` finds neither scheme+netloc nor path);
+outside the model (a tab inside the URL) -/
+example : ∃ raw r, parseRaw "foo[a,b] @ https://example.com/foo-1.0-py3-none-any.whl".toList = some raw ∧
+    raw.specs = none ∧ raw.marker = none ∧
+    Req.parse "foo[a,b] @ https://example.com/foo-1.0-py3-none-any.whl" = .ok r ∧
+    r.constraintText = "*" := ⟨_, _, rfl, rfl, rfl, rfl, rfl⟩
+example : ∃ raw, parseRaw "foo @ #".toList = some raw ∧ raw.specs = none ∧ raw.marker = none ∧
+    Req.parse "foo @ #" = .error .value := ⟨_, rfl, rfl, rfl, rfl⟩
+example : ∃ raw, parseRaw "foo @ http://exa\tmple.com/x".toList = some raw ∧ raw.specs = none ∧
+    raw.marker = none ∧ Req.parse "foo @ http://exa\tmple.com/x" = .error .unmodelled :=
+  ⟨_, rfl, rfl, rfl, rfl⟩
+/-- the other disjuncts occur: the constraint parser's `ValueError`; a marker leaf's `ValueError` -/
+example : ∃ raw, parseRaw "foo >=abc".toList = some raw ∧ raw.marker = none ∧
+    VParser.parseConstraint (constraintTextOf raw.specs) = .error .value ∧
+    Req.parse "foo >=abc" = .error .value := ⟨_, rfl, rfl, rfl, rfl⟩
+example : ∃ r, Req.parse "foo[a,b]>=1.0,<2" = .ok r ∧ r.constraintText = ">=1.0,<2" :=
+  ⟨_, rfl, by decide +kernel⟩
+example : Req.parse "foo ; python_version == \"abc\"" = .error .value :=
+  eq_error_of_isErrB _ _ (by decide +kernel)
+
+/-! ## R2 — `Dependency.create_from_pep_508(text)` -/
+
+/-- the full statement (up to model coverage).  NOT proved in full; see `dep_parse_err_decomposed`. -/
+def dep_parse_err_classified_full_statement : Prop :=
+  ∀ s e, createFromPep508 s = .error e → e = .value ∨ e = .unmodelled
+
+/-- **R2 (after `parse_requirement`).** `create_from_pep_508` on a parsed requirement fails with `ValueError`
+("Invalid wheel name", `URLDependency` without scheme/netloc), or leaves the model (file-system probes, git
+URLs outside the restricted grammar, `%`-quoted paths), or: the version-constraint parser rejects the version
+taken from a wheel file name; `str(constraint)` of the parsed constraint raises (plain `Dependency`); the
+`marker` setter raises.  The dispatch itself adds nothing else — in particular the `AssertionError` of
+`create_nested_marker` for an empty constraint (`nestedGS`) belongs to `to_pep_508`, which
+`create_from_pep_508` never calls. -/
+theorem dep_from_req_err_decomposed (req : Requirement) (e : PyErr) (h : fromReq req = .error e) :
+    e = .value ∨ e = .unmodelled ∨
+    (req.url.isSome ∧ ∃ t, VParser.parseConstraint t = .error e) ∨
+    (req.url = none ∧ req.constraint.toStr = .error e) ∨
+    (∃ (d : Dep) (m : M), req.marker = some m ∧ d.setMarker m = .error e) := fromReq_err req e h
+
+/-- **R2 (the `marker` setter).** `dep.marker = m` fails with `ValueError` (`InvalidVersionError` from
+`normalize_python_version_markers`), or in `convert_markers(m)` (DNF through the simplifier; its assertion
+that conjunctions hold single-marker-likes only), or in the version-constraint parser on the normalised
+`python_version` text. -/
+theorem dep_set_marker_err_decomposed (d : Dep) (m : M) (e : PyErr) (h : d.setMarker m = .error e) :
+    e = .value ∨ (∃ key, convertMarkersFor key m = .error e) ∨
+    ∃ t, VParser.parseConstraint t = .error e := setMarker_err d m e h
+
+/-- **R2 (decomposition, under `VCErrDocumented`).** -/
+theorem dep_parse_err_decomposed (hvc : VCErrDocumented) (s : String) (e : PyErr)
+    (h : createFromPep508 s = .error e) :
+    e = .value ∨ e = .unmodelled ∨
+    (∃ t, VParser.parseConstraint t = .error e) ∨
+    (∃ subs, (∀ m ∈ subs, RawM m = true) ∧ unionF defaultFuel [] subs = .error e) ∨
+    (∃ t c, VParser.parseConstraint t = .ok c ∧ c.toStr = .error e) ∨
+    (∃ key m, convertMarkersFor key m = .error e) := by
+  rcases createFromPep508L_err s.toList e h with h | ⟨req, hreq, h⟩
+  · rcases req_parse_err_decomposed_marker hvc (String.ofList (stripComment s.toList)) e
+        (by simpa [Req.parse] using h) with h | h | ⟨_, _, h⟩ | h
+    · exact .inl h
+    · exact .inr (.inl h)
+    · exact .inr (.inr (.inl ⟨_, h⟩))
+    · exact .inr (.inr (.inr (.inl h)))
+  · rcases fromReq_err req e h with h | h | ⟨_, h⟩ | ⟨_, h⟩ | ⟨d, m, _, h⟩
+    · exact .inl h
+    · exact .inr (.inl h)
+    · exact .inr (.inr (.inl h))
+    · refine .inr (.inr (.inr (.inr (.inl ⟨req.constraintText, req.constraint, ?_, h⟩))))
+      unfold parseL at hreq
+      split at hreq
+      · cases hreq
+      · exact (ofRaw_ok _ _ hreq).1
+    · rcases setMarker_err d m e h with h | ⟨key, h⟩ | h
+      · exact .inl h
+      · exact .inr (.inr (.inr (.inr (.inr ⟨key, m, h⟩))))
+      · exact .inr (.inr (.inl h))
+
+/-- **R2 (partial).** Named hypotheses: `hV` — the version-constraint parser raises `ValueError` only
+(Part II full statement; Part IV proves it outside the local-label case); `hP` — what it returns prints
+(Part II.B full statement; Part IV proves it for regular bounds); `hsimp` / `hconv` — every error of the
+marker simplifier on raw sub-markers / of `convert_markers` lies in `E` (neither is analysed here; `hconv`
+covers the `AssertionError` inside `convert_markers`). -/
+theorem dep_parse_err_classified_partial (hV : vc_parse_err_documented_full_statement)
+    (hP : vc_parsed_printable_full_statement) (E : PyErr → Prop)
+    (hsimp : ∀ subs e, (∀ m ∈ subs, RawM m = true) → unionF defaultFuel [] subs = .error e → E e)
+    (hconv : ∀ key m e, convertMarkersFor key m = .error e → E e)
+    (s : String) (e : PyErr) (h : createFromPep508 s = .error e) :
+    e = .value ∨ e = .unmodelled ∨ E e := by
+  have hvc : VCErrDocumented := fun t e' ht => hV t true e' ht
+  rcases dep_parse_err_decomposed hvc s e h with h | h | ⟨t, h⟩ | ⟨subs, hr, h⟩ | ⟨t, c, hc, h⟩ | ⟨key, m, h⟩
+  · exact .inl h
+  · exact .inr (.inl h)
+  · exact .inl (hV t false e h)
+  · exact .inr (.inr (hsimp subs e hr h))
+  · obtain ⟨txt, htxt⟩ := hP t false c hc
+    rw [htxt] at h; cases h
+  · exact .inr (.inr (hconv key m e h))
+
+/-- **R2 (unconditional fragment).** URL and VCS requirements without marker whose file name is not a wheel:
+`ValueError` or outside the model, no hypothesis. -/
+theorem dep_from_req_url_no_marker_err (req : Requirement) (e : PyErr) (hm : req.marker = none)
+    (hu : req.url.isSome) (h : fromReq req = .error e) :
+    e = .value ∨ e = .unmodelled ∨ ∃ t, VParser.parseConstraint t = .error e := by
+  rcases fromReq_err req e h with h | h | ⟨_, h⟩ | ⟨hn, _⟩ | ⟨_, m, hs, _⟩
+  · exact .inl h
+  · exact .inr (.inl h)
+  · exact .inr (.inr h)
+  · rw [hn] at hu; cases hu
+  · rw [hm] at hs; cases hs
+
+example : ∃ d, createFromPep508 "foo" = .ok d ∧ d.kind = .registry := ⟨_, rfl, rfl⟩
+example : ∃ d, createFromPep508 "foo[a,b]>=1.0,<2" = .ok d ∧ d.prettyConstraint = ">=1.0,<2" ∧
+    d.spec.features = ["a", "b"] := ⟨_, rfl, by decide +kernel, by decide +kernel⟩
+example : ∃ d, createFromPep508 "foo @ https://example.com/foo-1.0-py3-none-any.whl" = .ok d ∧
+    d.kind = .url "https://example.com/foo-1.0-py3-none-any.whl" none := ⟨_, rfl, by decide +kernel⟩
+example : ∃ d, createFromPep508 "foo @ git+https://github.com/a/b.git@main" = .ok d ∧
+    d.kind = .vcs "git" "https://github.com/a/b.git" none none (some "main") none :=
+  ⟨_, rfl, by decide +kernel⟩
+example : createFromPep508 "foo @" = .error .value := rfl
+example : createFromPep508 "foo @ https://example.com/foo.whl" = .error .value := rfl
+example : createFromPep508 "foo @ file:///x" = .error .unmodelled := rfl
+example : createFromPep508 "foo >=abc" = .error .value := rfl
 
 end Poetry.C19
